@@ -279,6 +279,11 @@ def run(ctx):
         errs = a.get("errs") or []
         if len(errs) != nerr:
             violations.append({"sig": "todo-not-exempt", "what": "%s: expected %d diagnostic(s), got %r" % (label, nerr, errs), "files": [gen.yaml_doc(cfg)]})
+    # the custom unmarshalers (tag, call, scope shapes) against their model, on generated node trees
+    dv, dc, dn = decode_shapes(ctx)
+    violations += dv
+    corr_fail += dc
+    dist["decode_nodes"] = dn
     # wrong YAML node kinds (decode stage) and Go keywords: recorded findings D11 / D12
     kinds = [("scope", "services: {a: {constructor: N, scope: bogus}, 'bad name': {constructor: N}}"), ("call", "services: {a: {constructor: N, calls: [5]}, 'bad name': {constructor: N}}"),
              ("tag", "services: {a: {constructor: N, tags: [[1]]}, 'bad name': {constructor: N}}"), ("version", "version: [1]\nservices: {'bad name': {constructor: N}}")]
@@ -297,6 +302,77 @@ def run(ctx):
             "rule": "all strings of length <= %d over %r + mutated documented forms, at each of %d distinct patterns (match + capture groups: RE2 vs model vs hand-written recogniser); k-subsets (1,2,3,5,all) of %d injected defect positions; wrong YAML node kinds; non-trivial = accepted (pattern, string) pairs" % (L, "".join(ALPHA), dist["patterns"], len(defects)),
             "samples": [{"name": "input_regexServiceValue", "s": "&a.B{}"}, {"defects": [d[0] for d in subsets[40]]}], "distribution": dist,
             "violations": violations, "corr_fail": corr_fail, "exhaustive": False}
+
+
+def tagged(v):
+    """a python value as the node protocol of the model"""
+    if v is None:
+        return {"t": "null"}
+    if isinstance(v, bool):
+        return {"t": "bool", "v": v}
+    if isinstance(v, int):
+        return {"t": "int" if v < 2**63 else "uint", "v": str(v)}
+    if isinstance(v, float):
+        from vlib import spec
+        return {"t": "float", "v": spec.fmt_float(v)}
+    if isinstance(v, str):
+        return {"t": "str", "v": v}
+    if isinstance(v, list):
+        return {"t": "list", "v": [tagged(x) for x in v]}
+    return {"t": "dict", "v": [[k, tagged(x)] for k, x in v.items()]}
+
+
+def rand_node(rng, depth=0):
+    r = rng.random()
+    scal = [None, True, False, 0, 5, -3, 2**63, 1.5, "", "x", "shared", "contextual", "non_shared", "Shared", "name", "priority", "non-shared", " shared"]
+    if depth >= 2 or r < 0.45:
+        return rng.choice(scal)
+    if r < 0.75:
+        return [rand_node(rng, depth + 1) for _ in range(rng.randint(0, 4))]
+    keys = rng.sample(["name", "priority", "Name", "x", "tag"], rng.randint(0, 3))
+    return {k: rand_node(rng, depth + 1) for k in keys}
+
+
+def decode_shapes(ctx):
+    """tag / call / scope shapes: documented forms must be stored as documented, everything else rejected with the
+    unmarshaler's own message; model and implementation must agree on every generated node"""
+    n = 1500 if ctx.quick else 20000
+    fixed = [("tag", "t"), ("tag", {"name": "t"}), ("tag", {"name": "t", "priority": 7}), ("tag", {"name": "t", "priority": -2}), ("tag", {"priority": 1}),
+             ("tag", {"name": 5}), ("tag", {"name": "t", "priority": "1"}), ("tag", {"name": "t", "priority": 1.0}), ("tag", {"name": "t", "priority": 2**63}), ("tag", 5), ("tag", ["t"]), ("tag", None),
+             ("call", ["M"]), ("call", ["M", []]), ("call", ["M", [1, "a", None, [1], {"k": 1}]]), ("call", ["M", [], True]), ("call", ["M", [], False]), ("call", []),
+             ("call", ["M", [], True, 1]), ("call", [1]), ("call", ["M", "x"]), ("call", ["M", {"a": 1}]), ("call", ["M", [], "true"]), ("call", ["M", [], 1]), ("call", "M"), ("call", {"m": 1}),
+             ("scope", "shared"), ("scope", "contextual"), ("scope", "non_shared"), ("scope", "Shared"), ("scope", ""), ("scope", None), ("scope", 5), ("scope", True), ("scope", ["shared"]), ("scope", {"a": 1})]
+    cases = fixed + [(ctx.rng.choice(["tag", "call", "scope"]), rand_node(ctx.rng)) for _ in range(n)]
+    reqs_i = [{"op": "decodeNode", "kind": k, "yaml": json.dumps(v)} for k, v in cases]
+    reqs_m = [{"op": "decodeNode", "kind": k, "node": tagged(v)} for k, v in cases]
+    ri = ctx.impl.ask_many(reqs_i)
+    rm = ctx.model.ask_many(reqs_m) if ctx.have_model else [None] * len(cases)
+    violations, corr_fail = [], []
+    for (k, v), a, b in zip(cases, ri, rm):
+        if "panic" in a:
+            violations.append({"sig": "panic", "what": "unmarshaler of %s panics on %r: %s" % (k, v, a["panic"]), "input": {"kind": k, "node": v}}); continue
+        # documentation-level judgement of the documented forms
+        want = None
+        if v is None:
+            want = True   # a null node is not handed to the unmarshaler: the zero value stays (validation then judges it)
+        elif k == "tag":
+            want = isinstance(v, str) or (isinstance(v, dict) and isinstance(v.get("name"), str) and ("priority" not in v or (isinstance(v["priority"], int) and not isinstance(v["priority"], bool) and v["priority"] < 2**63)))
+        elif k == "call":
+            want = isinstance(v, list) and 1 <= len(v) <= 3 and isinstance(v[0], str) and (len(v) < 2 or isinstance(v[1], list)) and (len(v) < 3 or isinstance(v[2], bool))
+        elif k == "scope":
+            want = v in ("shared", "contextual", "non_shared") and isinstance(v, str)
+        if ("ok" in a) != bool(want):
+            violations.append({"sig": "shape:" + k, "what": "%s node %r is %s, documented shapes say %s" % (k, v, "stored as %r" % (a.get("ok"),) if "ok" in a else "rejected (%s)" % a.get("err", "")[:80], "store" if want else "reject"), "input": {"kind": k, "node": v}})
+        if b is not None:
+            if "ok" in b:
+                same = core.canon(a.get("ok")) == core.canon(b["ok"])
+            elif b.get("err") == "yaml":
+                same = a.get("err", "").startswith("yaml:")
+            else:
+                same = a.get("err") == b.get("err")
+            if not same and len(corr_fail) < 10:
+                corr_fail.append({"op": "decodeNode:" + k, "req": {"node": v}, "impl": a, "model": b})
+    return violations, corr_fail, len(cases)
 
 
 def replay(ctx, payload):
